@@ -57,15 +57,21 @@ func guardsOf(stack []ast.Node, n ast.Node) []Guard {
 					gs = append(gs, Guard{Cond: e, Tag: tag, Node: x})
 				}
 			}
+		}
+		// early exits before child in the same statement list
+		var list []ast.Stmt
+		switch x := full[i].(type) {
 		case *ast.BlockStmt:
-			// early exits before child in this block
-			for _, s := range x.List {
-				if s == child {
-					break
-				}
-				if ifs, ok := s.(*ast.IfStmt); ok && ifs.Else == nil && endsInExit(ifs.Body) {
-					gs = append(gs, Guard{Cond: ifs.Cond, Neg: true, Node: ifs})
-				}
+			list = x.List
+		case *ast.CaseClause:
+			list = x.Body
+		}
+		for _, s := range list {
+			if s == child {
+				break
+			}
+			if ifs, ok := s.(*ast.IfStmt); ok && ifs.Else == nil && endsInExit(ifs.Body) {
+				gs = append(gs, Guard{Cond: ifs.Cond, Neg: true, Node: ifs})
 			}
 		}
 	}
